@@ -17,6 +17,7 @@ mod exm_max2sat;
 #[allow(unused_imports)]
 use exm_max2sat::ex_max2sat::{data, errors, heuristics, model, relax};
 mod eng_domcyc;
+mod eng_cacheorder;
 mod exgen;
 mod exgen_b;
 
@@ -62,6 +63,7 @@ fn main() {
         "ex" => eng_ex::run_ex(&a),
         "exmodel" => eng_exmodel::run_exmodel(&a),
         "domcyc" => eng_domcyc::run_domcyc(&a),
+        "cacheorder" => eng_cacheorder::run_cacheorder(&a),
         e => { eprintln!("unknown engine {}", e); std::process::exit(2); }
     }
 }
